@@ -4,7 +4,7 @@ package mytime
 
 // Contracts for the deductive checker in /verif (comment-only file).
 
-//vc:ghost var now int64
+//vc:ghost var now int64 nondecreasing
 //vc:spec func unixOf(t time.Time) int64
 
 // The clock of the run: strictly increasing over events (assumption of C13).
